@@ -475,6 +475,9 @@ SWEEP = ["anyflow/test_builder.cpp",
 
 # name anchors (validated by tools/rename_sweep.py; a vanished name is exit 2, see core.check_anchor_names)
 ANCHORS = {
+    'established': ['^babylon::anyflow::GraphDependency(<|$)'],
+    'check_established': ['^babylon::anyflow::GraphDependency(<|$)'],
+    '_ready': ['^babylon::anyflow::GraphDependency(<|$)'],
     'activate': ['^babylon::anyflow::GraphData(<|$)', '^babylon::anyflow::GraphDependency(<|$)', '^babylon::anyflow::GraphVertex(<|$)'],
     'condition': ['^babylon::anyflow::GraphDependency(<|$)'],
     'data_num': ['^babylon::anyflow::GraphData(<|$)'],
